@@ -114,6 +114,7 @@ func Run(r *ev.Run) {
 	}
 	logrus.StandardLogger().ExitFunc = func(code int) { panic(fmt.Sprintf("logrus.Fatal -> os.Exit(%d)", code)) }
 	m := &monitor{r: r, rng: gen.New(r.Seed, "c18")}
+	backupBuild := startBackupToolBuild() // `go build ./cmd/acra-backup` of the repository under test runs beside the layers below
 	m.scannerSelfTest()
 	hs := histories(m.rng, gen.New(r.Seed, "c18-odd-ids"), r.Pick(5, 24))
 	for _, h := range hs {
@@ -137,6 +138,8 @@ func Run(r *ev.Run) {
 		{id: idG, pair: 3, sym: 3, hmac: 2}, {id: idD, pair: 2, sym: 3, hmac: 2}, {id: idE, pair: 3, sym: 2, hmac: 2}},
 		poisonPair: 2, poisonSym: 2, logKey: 2}, r.Thorough())
 	m.cmdGuards()
+	// the real acra-backup binary, built from the repository under test and run as child processes
+	m.backupToolLayer(hs, backupBuild)
 	r.Extra("command_level_layer_wall_s", time.Since(cmdStart).Seconds()) // information only
 	r.RequireAtLeast("exports_ok", 20)
 	r.RequireAtLeast("imports_ok", 20)
